@@ -7,6 +7,43 @@ pub const CAP: usize = 4;
 #[cfg(verif_cap6)]
 pub const CAP: usize = 6;
 
+/// Select slot `i` through a *concrete* index: CBMC turns `slots[sym]` on an array of large
+/// structs into byte-level updates with a symbolic offset (measured: 10 M variables for one
+/// insert); a chain of guarded concrete accesses stays small.
+#[inline(always)]
+fn pick<T>(slots: &[Option<T>; CAP], i: usize) -> &Option<T> {
+    let mut j = 0;
+    while j < CAP - 1 {
+        if j == i {
+            return &slots[j];
+        }
+        j += 1;
+    }
+    &slots[CAP - 1]
+}
+#[inline(always)]
+fn pick_mut<T>(slots: &mut [Option<T>; CAP], i: usize) -> &mut Option<T> {
+    if i == 0 {
+        return &mut slots[0];
+    }
+    if i == 1 {
+        return &mut slots[1];
+    }
+    if i == 2 {
+        return &mut slots[2];
+    }
+    #[cfg(verif_cap6)]
+    {
+        if i == 3 {
+            return &mut slots[3];
+        }
+        if i == 4 {
+            return &mut slots[4];
+        }
+    }
+    &mut slots[CAP - 1]
+}
+
 pub struct BTreeMap<K, V> {
     n: usize,
     slots: [Option<(K, V)>; CAP],
@@ -91,7 +128,8 @@ impl<K, V> BTreeMap<K, V> {
     pub fn iter_mut(&mut self) -> IterMut<'_, K, V> {
         let n = self.n;
         IterMut {
-            inner: self.slots[..n].iter_mut(),
+            inner: self.slots.iter_mut(),
+            left: n,
         }
     }
     pub fn values(&self) -> Values<'_, K, V> {
@@ -126,7 +164,7 @@ impl<K, V> BTreeMap<K, V> {
                 None => false,
             };
             if keep {
-                self.slots[w] = e;
+                *pick_mut(&mut self.slots, w) = e;
                 w += 1;
             }
             r += 1;
@@ -144,13 +182,13 @@ impl<K, V> BTreeMap<K, V> {
         if self.n == 0 {
             None
         } else {
-            self.slots[self.n - 1].as_ref().map(|(k, v)| (k, v))
+            pick(&self.slots, self.n - 1).as_ref().map(|(k, v)| (k, v))
         }
     }
     /// Model-only: direct construction of an arbitrary pre-state (keys must be ascending).
     pub fn verif_push_back(&mut self, k: K, v: V) {
         vnd::model_bound(self.n < CAP);
-        self.slots[self.n] = Some((k, v));
+        *pick_mut(&mut self.slots, self.n) = Some((k, v));
         self.n += 1;
     }
 }
@@ -182,7 +220,7 @@ impl<K: Ord, V> BTreeMap<K, V> {
     {
         let (i, found) = self.locate(k);
         if found {
-            self.slots[i].as_ref().map(|(_, v)| v)
+            pick(&self.slots, i).as_ref().map(|(_, v)| v)
         } else {
             None
         }
@@ -193,7 +231,7 @@ impl<K: Ord, V> BTreeMap<K, V> {
     {
         let (i, found) = self.locate(k);
         if found {
-            self.slots[i].as_mut().map(|(_, v)| v)
+            pick_mut(&mut self.slots, i).as_mut().map(|(_, v)| v)
         } else {
             None
         }
@@ -207,17 +245,21 @@ impl<K: Ord, V> BTreeMap<K, V> {
     fn insert_at(&mut self, k: K, v: V) -> (usize, Option<V>) {
         let (i, found) = self.locate(&k);
         if found {
-            let old = self.slots[i].take().map(|(_, v)| v);
-            self.slots[i] = Some((k, v));
+            let slot = pick_mut(&mut self.slots, i);
+            let old = slot.take().map(|(_, v)| v);
+            *slot = Some((k, v));
             return (i, old);
         }
         vnd::model_bound(self.n < CAP);
-        let mut j = self.n;
-        while j > i {
-            self.slots[j] = self.slots[j - 1].take();
+        // shift right with concrete indices, guarded by the symbolic position
+        let mut j = CAP - 1;
+        while j > 0 {
+            if j > i && j <= self.n {
+                self.slots[j] = self.slots[j - 1].take();
+            }
             j -= 1;
         }
-        self.slots[i] = Some((k, v));
+        *pick_mut(&mut self.slots, i) = Some((k, v));
         self.n += 1;
         (i, None)
     }
@@ -232,10 +274,12 @@ impl<K: Ord, V> BTreeMap<K, V> {
         if !found {
             return None;
         }
-        let old = self.slots[i].take().map(|(_, v)| v);
-        let mut j = i;
-        while j + 1 < self.n {
-            self.slots[j] = self.slots[j + 1].take();
+        let old = pick_mut(&mut self.slots, i).take().map(|(_, v)| v);
+        let mut j = 0;
+        while j + 1 < CAP {
+            if j >= i && j + 1 < self.n {
+                self.slots[j] = self.slots[j + 1].take();
+            }
             j += 1;
         }
         self.n -= 1;
@@ -266,13 +310,13 @@ pub enum Entry<'a, K, V> {
 
 impl<'a, K, V> OccupiedEntry<'a, K, V> {
     pub fn into_mut(self) -> &'a mut V {
-        &mut self.m.slots[self.i].as_mut().unwrap().1
+        &mut pick_mut(&mut self.m.slots, self.i).as_mut().unwrap().1
     }
     pub fn get(&self) -> &V {
-        &self.m.slots[self.i].as_ref().unwrap().1
+        &pick(&self.m.slots, self.i).as_ref().unwrap().1
     }
     pub fn get_mut(&mut self) -> &mut V {
-        &mut self.m.slots[self.i].as_mut().unwrap().1
+        &mut pick_mut(&mut self.m.slots, self.i).as_mut().unwrap().1
     }
     pub fn insert(&mut self, v: V) -> V {
         core::mem::replace(self.get_mut(), v)
@@ -281,7 +325,7 @@ impl<'a, K, V> OccupiedEntry<'a, K, V> {
 impl<'a, K: Ord, V> VacantEntry<'a, K, V> {
     pub fn insert(self, v: V) -> &'a mut V {
         let (i, _) = self.m.insert_at(self.k, v);
-        &mut self.m.slots[i].as_mut().unwrap().1
+        &mut pick_mut(&mut self.m.slots, i).as_mut().unwrap().1
     }
 }
 impl<'a, K: Ord, V> Entry<'a, K, V> {
@@ -323,7 +367,7 @@ impl<'a, K, V> Iterator for Iter<'a, K, V> {
         if self.i >= self.m.n {
             return None;
         }
-        let r = self.m.slots[self.i].as_ref().map(|(k, v)| (k, v));
+        let r = pick(&self.m.slots, self.i).as_ref().map(|(k, v)| (k, v));
         self.i += 1;
         r
     }
@@ -338,7 +382,7 @@ impl<'a, K, V> Iterator for Values<'a, K, V> {
         if self.i >= self.m.n {
             return None;
         }
-        let r = self.m.slots[self.i].as_ref().map(|(_, v)| v);
+        let r = pick(&self.m.slots, self.i).as_ref().map(|(_, v)| v);
         self.i += 1;
         r
     }
@@ -353,17 +397,22 @@ impl<'a, K, V> Iterator for Keys<'a, K, V> {
         if self.i >= self.m.n {
             return None;
         }
-        let r = self.m.slots[self.i].as_ref().map(|(k, _)| k);
+        let r = pick(&self.m.slots, self.i).as_ref().map(|(k, _)| k);
         self.i += 1;
         r
     }
 }
 pub struct IterMut<'a, K, V> {
     inner: core::slice::IterMut<'a, Option<(K, V)>>,
+    left: usize,
 }
 impl<'a, K, V> Iterator for IterMut<'a, K, V> {
     type Item = (&'a K, &'a mut V);
     fn next(&mut self) -> Option<Self::Item> {
+        if self.left == 0 {
+            return None;
+        }
+        self.left -= 1;
         match self.inner.next() {
             Some(Some((k, v))) => Some((&*k, v)),
             _ => None,
@@ -389,7 +438,7 @@ impl<K, V> Iterator for IntoIter<K, V> {
         if self.i >= self.m.n {
             return None;
         }
-        let r = self.m.slots[self.i].take();
+        let r = pick_mut(&mut self.m.slots, self.i).take();
         self.i += 1;
         r
     }
